@@ -21,6 +21,7 @@
 #############################################################################
 
 import datetime
+import math
 import logging
 import struct
 
@@ -62,9 +63,12 @@ class UTCTimeHandler(RequestHandlerBase):
             epoch = datetime.datetime(
                 year=1900, month=1, day=1, tzinfo=UTC())
             seconds = (now - epoch).total_seconds()
-            fraction = seconds - int(seconds)
-            seconds = int(seconds) % (1 << 32)
-            fraction = int(fraction * (1 << 32))
+            # floor, so that the fraction is positive for a (drifted) time
+            # before the NTP epoch as well
+            whole = math.floor(seconds)
+            fraction = seconds - whole
+            seconds = whole % (1 << 32)
+            fraction = min(int(fraction * (1 << 32)), (1 << 32) - 1)
             # See RFC5905 for "NTP Timestamp format"
             rv = struct.pack('>II', seconds, fraction)
             headers['Content-Type'] = 'application/octet-stream'
